@@ -18,6 +18,7 @@ import RbModel.Lemmas.GsubMultiMixed
 import RbModel.Lemmas.GsubLigFwd
 import RbModel.Lemmas.GsubLigFlags
 import RbModel.Lemmas.GsubLigMixed
+import RbModel.Lemmas.GsubCtxRule
 
 namespace RbModel.Buf
 
@@ -1057,3 +1058,200 @@ example : applyLookup.loop.fill ((0 + 1 + 3 : Nat) : Int) [7, 0, 0, 0, 12, 13] (
   rfl
 
 end RbModel.Gsub
+
+/-! ## Part 7 — contextual substitution (GSUB types 5 and 6): matching and the nested-record loop refine the OpenType model
+
+  `Context*` / `ChainContext*` subtables (all three formats differ only in the match function: glyph, class, coverage) run
+  `match_input`, `match_lookahead`, `match_backtrack` (skipping iterators) and then `apply_lookup`: for every
+  (sequenceIndex, lookupIndex) record, `move_to` the recorded position, `recurse` into the nested lookup, and keep
+  `match_positions` in step with the buffer (delta, shift, fill, fixup); finally `move_to(end)`.  The specification
+  (`Spec.Subst.applySubtableAt … ctxRule`) matches three predicate sequences on the VISIBLE positions after / before the
+  current glyph (`matchSeq` on `visibleFrom` / `visibleBefore`) and applies the records with `applyRecords` / `applyNested`.
+  Lemmas: `Lemmas/GsubCtx*.lean`.  Strings are compared through (glyph id, cluster, FEATURE bits of the mask): a successful
+  match makes `unsafe_to_break` set glyph-flag bits in the masks of the matched span, which the specification — it knows
+  feature bits only — does not describe (same projection as `C06_ligature_subst_flags_partial`).
+
+  Domain (the Spec's documented one) and the guard of the code each hypothesis stands for:
+  * `NoSkipFlags c.lookupProps` — the contextual lookup's flags exclude nothing, so the visible positions are consecutive
+    (`visibleFrom_noSkip`, `visibleBefore_noSkip`); `c.perSyllable = false` (Indic shapers only).
+  * `Plain y` for the unconsumed input (not default-ignorable, no ligature id: `match_input` refuses to match across
+    components of different earlier ligatures) and `CtxG y` for every glyph a matcher may read (in particular the OUT
+    buffer, which `match_backtrack` reads): `unicode_props & 0x20 = 0` (the iterator may skip default-ignorables: HarfBuzz-
+    specific), `gid < 65536` (`GlyphId` is `u16`; the model keeps `Nat` and reduces mod 2^16 where Rust casts), and at
+    least one feature bit in the mask: the `context_match` iterators of backtrack / lookahead test `mask & 0xFFFFFFFF ≠ 0`
+    where the specification tests nothing — every glyph of a shaping run carries the global bit (see `exCtxMask0` below
+    for the disagreement on a zero mask).
+  * `c.lookupMask &&& (U32MAX - Flag.DEFINED) = c.lookupMask` — the lookup mask is made of feature bits (the feature map
+    never allocates the three glyph-flag bits); `c.lookupMask < 2^32`, `c.random = false` as in Part 3 (alternates).
+  * `NestedSts Gr l.subtables` for every nested lookup: its subtables are single / alternate / multiple substitutions (it acts
+    at ONE position and is not itself contextual — one nesting level), no sequence is empty (non-shrinking: `delta ≥ 0`
+    branch of `apply_lookup` only; deleting sequences go through `delete_glyph` and the `delta < 0` branch, not covered), every
+    sequence adds at most `Gr` glyphs, substitute ids fit `u16`, alternate sets have at most 65535 entries.
+  * the three budgets the code consults: `out_len + |input| + |records| · Gr ≤ max_len` (`make_room_for` / `shift_forward`
+    behind `move_to`, `output_glyph`), `n + 1 + |records| · Gr ≤ MAX_CONTEXT_LENGTH` (else `apply_lookup` stops at the first
+    record that would grow the sequence beyond 64 — the specification has no such limit), `|records| ≤ max_ops` (`recurse`
+    spends one unit per record and `apply_lookup` stops at `max_ops ≤ 0`); the nesting budget is the `m + 1` of
+    `recurseAt (m + 1)` (one level is used: nested lookups are not contextual). -/
+namespace RbModel.Gsub
+open RbModel RbModel.Buf RbModel.Spec.Subst
+
+/-- **C06, contextual, step 1a: `match_input` without skippable glyphs is the specification's `matchSeq`** on the visible
+    positions behind the current glyph of the projected string `toG (out ++ in)`, with the lookup's feature required on
+    every input glyph, for ANY match function `fn glyph index` (glyph ids, classes, coverages: `fnPreds fn 0 n` are the
+    predicates `fn · 0, …, fn · (n-1)`).  Same decision; on success the matched positions are consecutive on both sides
+    (`out_len + 1 …` resp. `idx …`) and `match_end` is just behind the last. -/
+theorem C06_context_match_input_refines_spec (c : Ctx) (n : Nat) (fn : Nat → Nat → Bool) (x : Info) (R : List Info)
+    (hinv : Inv c.buf) (hin : inP c.buf = x :: R) (hpl : ∀ y ∈ x :: R, Plain y) (hgid : ∀ y ∈ R, y.gid < 65536)
+    (hp : NoSkipFlags c.lookupProps) (hps : c.perSyllable = false) (hshort : n + 1 ≤ MAX_CONTEXT_LENGTH)
+    (hlmf : c.lookupMask &&& (U32MAX - Flag.DEFINED) = c.lookupMask) :
+    ∃ r, matchInput c n fn [0, 0, 0, 0] = .ok r ∧
+      match matchSeq ((outP c.buf ++ inP c.buf).map toG)
+              (visibleFrom c.font c.lookupProps ((outP c.buf ++ inP c.buf).map toG) (c.buf.outLen + 1))
+              (fnPreds fn 0 n) (some c.lookupMask) with
+      | none => r.ok = false
+      | some ins => r.ok = true ∧ ins = List.range' (c.buf.outLen + 1) n ∧ n ≤ R.length ∧ r.endPos = c.buf.idx + n + 1 ∧
+          n + 1 ≤ r.positions.length ∧ ∀ j, j ≤ n → r.positions[j]? = some (c.buf.idx + j) := by
+  rw [toG_eq_projG]
+  exact matchInput_relF c n fn _ x R hinv hin (RelF.refl _) hpl hgid hp hps hshort hlmf
+
+/-- **C06, contextual, step 1b: `match_lookahead`** behind a matched input of `k` glyphs is `matchSeq` on the visible positions
+    from `out_len + k + 1` on (the Spec's `afterIn`), no feature required. -/
+theorem C06_context_match_lookahead_refines_spec (c : Ctx) (n k : Nat) (fn : Nat → Nat → Bool) (x : Info) (R : List Info)
+    (hinv : Inv c.buf) (hin : inP c.buf = x :: R) (hgl : ∀ y ∈ R, CtxG y)
+    (hp : NoSkipFlags c.lookupProps) (hps : c.perSyllable = false) :
+    ∃ r, matchLookahead c n fn (c.buf.idx + k + 1) = .ok r ∧
+      r.1 = (matchSeq ((outP c.buf ++ inP c.buf).map toG)
+              (visibleFrom c.font c.lookupProps ((outP c.buf ++ inP c.buf).map toG) (c.buf.outLen + k + 1))
+              (fnPreds fn 0 n)).isSome := by
+  rw [toG_eq_projG]
+  exact matchLookahead_relF c n k fn _ x R hinv hin (RelF.refl _) hgl hp hps
+
+/-- **C06, contextual, step 1c: `match_backtrack` reads the OUT buffer**: it is `matchSeq` on the visible positions before
+    `out_len` of the projected string, nearest first (the Spec's `visibleBefore`), no feature required. -/
+theorem C06_context_match_backtrack_refines_spec (c : Ctx) (n : Nat) (fn : Nat → Nat → Bool)
+    (hinv : Inv c.buf) (hgl : ∀ y ∈ outP c.buf, CtxG y) (hp : NoSkipFlags c.lookupProps) (hps : c.perSyllable = false) :
+    ∃ r, matchBacktrack c n fn = .ok r ∧
+      r.1 = (matchSeq ((outP c.buf ++ inP c.buf).map toG)
+              (visibleBefore c.font c.lookupProps ((outP c.buf ++ inP c.buf).map toG) c.buf.outLen)
+              (fnPreds fn 0 n)).isSome ∧ r.2 ≤ c.buf.outLen := by
+  rw [toG_eq_projG]
+  exact matchBacktrack_relF c n fn _ hinv (RelF.refl _) hgl hp hps
+
+/-- **C06, contextual, step 2: `apply_lookup` (the nested-record loop) on a match equals `Spec.Subst.applyRecords`.**  On any
+    in/out buffer state, for a match of `n + 1` consecutive glyphs at the current position (`match_positions[j] = idx + j`,
+    `match_end = idx + n + 1`) and records whose nested lookups are single-position and non-shrinking, inside the three
+    budgets: `apply_lookup` does not panic and is not refused; the new string is — in glyph ids, clusters and feature bits —
+    the specification's `applyRecords` on the projected string `toG (out ++ in)` with the sequence positions
+    `out_len, …, out_len + n` (= the buffer positions shifted by `out_len − idx`); the cursor ends behind the grown match:
+    the new `out_len` is the old match end plus the growth, and it is the Spec's last sequence position + 1; the unconsumed
+    input behind the match is untouched. -/
+theorem C06_context_records_refine_spec (m : Nat) (c : Ctx) (n : Nat) (P : List Nat) (recs : List Rec)
+    (x : Info) (R : List Info) (Gr : Nat)
+    (hinv : Inv c.buf) (hsu : c.buf.successful = true) (hin : inP c.buf = x :: R) (hn : n ≤ R.length)
+    (hglyph : ∀ y ∈ outP c.buf ++ inP c.buf, CtxG y)
+    (hP : n + 1 ≤ P.length) (hPj : ∀ j, j ≤ n → P[j]? = some (c.buf.idx + j))
+    (hlm : c.lookupMask < 2 ^ 32) (hlmf : c.lookupMask &&& (U32MAX - Flag.DEFINED) = c.lookupMask) (hrnd : c.random = false)
+    (hnest : ∀ r ∈ recs, ∀ l, c.font.lookups[r.2]? = some l → NestedSts Gr l.subtables)
+    (hbud : c.buf.outLen + (inP c.buf).length + recs.length * Gr ≤ c.buf.maxLen)
+    (hctx : n + 1 + recs.length * Gr ≤ MAX_CONTEXT_LENGTH) (hops : (recs.length : Int) ≤ c.buf.maxOps) :
+    ∃ b', applyLookup (recurseAt (m + 1)) c n P (c.buf.idx + n + 1) recs = .ok { c with buf := b' } ∧ Inv b' ∧
+      b'.successful = true ∧
+      (outP b' ++ inP b').map (fun y => (y.gid, y.cluster, featBits y.mask))
+        = (applyRecords c.font c.lookupMask recs ((outP c.buf ++ inP c.buf).map toG) (List.range' c.buf.outLen (n + 1))).1.map
+            (fun g => (g.gid, g.cluster, featBits g.mask)) ∧
+      b'.outLen + (outP c.buf ++ inP c.buf).length = c.buf.outLen + n + 1 +
+        (applyRecords c.font c.lookupMask recs ((outP c.buf ++ inP c.buf).map toG) (List.range' c.buf.outLen (n + 1))).1.length ∧
+      (applyRecords c.font c.lookupMask recs ((outP c.buf ++ inP c.buf).map toG) (List.range' c.buf.outLen (n + 1))).2.getLast?
+        = some (b'.outLen - 1) ∧ 0 < b'.outLen ∧ inP b' = R.drop n := by
+  rw [toG_eq_projG]
+  obtain ⟨b', hrun, hinv', hsu', hrel', hlen', hlast', hpos', hin', _, _, _, _⟩ :=
+    applyLookup_sim C06_gen_buffer_variants.2 C06_gen_buffer_variants.1 m c n P recs _ x R Gr hinv hsu hin hn (RelF.refl _)
+      hglyph hP hPj hlm hlmf hrnd hnest hbud hctx hops
+  refine ⟨b', hrun, hinv', hsu', hrel', ?_, hlast', hpos', hin'⟩
+  rw [← hlen']; simp
+
+/-! non-vacuity.  Font: lookup 0 = one ChainContext format 3 rule — backtrack [9], input [1] [2], lookahead [3], records
+    (0 → lookup 1), (2 → lookup 2); lookup 1 = multiple substitution 1 → 11 12 13 (grows 1 → 3); lookup 2 = single
+    substitution 13 → 20: the SECOND record addresses sequence index 2, which after the growth is the ADDED glyph 13 (not the
+    original second input glyph 2).  Text `9 1 2 3 | 9 1 2 4`: the first rule instance fires, the second has a FAILED
+    lookahead (4 is not 3) and nothing changes.  Feature bit 8; all glyphs carry it. -/
+def exCtxFont : Font :=
+  { lookups := [ { props := 0, subtables := [.chain3 [[9]] [[1], [2]] [[3]] [(0, 1), (2, 2)]] },
+                 { props := 0, subtables := [.multiple [1] [[11, 12, 13]]] },
+                 { props := 0, subtables := [.single1 [13] 7] },
+                 { props := 0, subtables := [.single1 [1] 30] },
+                 { props := 0, subtables := [.single1 [1] 40] },
+                 { props := 0, subtables := [.context1 [1] [[⟨[2], [(0, 3)]⟩, ⟨[2, 3], [(0, 4)]⟩]]] } ] }
+def exCtxInfo : List Info :=
+  [⟨9,8,0,0,0⟩, ⟨1,8,1,0,0⟩, ⟨2,8,2,0,0⟩, ⟨3,8,3,0,0⟩, ⟨9,8,4,0,0⟩, ⟨1,8,5,0,0⟩, ⟨2,8,6,0,0⟩, ⟨4,8,7,0,0⟩]
+def exCtxCtx : Ctx :=
+  { font := exCtxFont, lookupMask := 8, buf := { info := exCtxInfo, out := List.replicate 8 {}, len := 8 } }
+def exCtxLookup : Lookup := { props := 0, subtables := [.chain3 [[9]] [[1], [2]] [[3]] [(0, 1), (2, 2)]] }
+
+example : ∀ y ∈ exCtxInfo, CtxG y ∧ Plain y := by decide
+example : NestedSts 2 [.multiple [1] [[11, 12, 13]]] ∧ NestedSts 2 [.single1 [13] 7] := by
+  refine ⟨⟨by decide, ?_, ?_⟩, ⟨by decide, ?_, ?_⟩⟩
+  · intro st hst cov alts he; simp only [List.mem_singleton] at hst; subst hst; cases he
+  · intro st hst ss hss; simp only [List.mem_singleton] at hst; subst hst
+    simp only [Subtable.seqsOf, List.mem_singleton] at hss; subst hss; decide
+  · intro st hst cov alts he; simp only [List.mem_singleton] at hst; subst hst; cases he
+  · intro st hst ss hss; simp only [List.mem_singleton] at hst; subst hst
+    simp only [Subtable.seqsOf, List.not_mem_nil] at hss
+/-- the interpreter: `9 1 2 3 9 1 2 4` ↦ `9 11 12 20 2 3 9 1 2 4` (clusters of the added glyphs = cluster of the glyph they
+    replace) -/
+example : (match applyString exCtxCtx exCtxLookup 8 with
+    | .ok c' => (c'.buf.info.take c'.buf.len).map (fun x => (x.gid, x.cluster, featBits x.mask)) ==
+        [(9,0,8), (11,1,8), (12,1,8), (20,1,8), (2,2,8), (3,3,8), (9,4,8), (1,5,8), (2,6,8), (4,7,8)]
+    | .error _ => false) = true := by decide
+/-- the specification: the same string -/
+example : (applyLookupFwd exCtxFont 0 exCtxLookup 8 8 (exCtxInfo.map toG) 0).map (fun g => (g.gid, g.cluster, featBits g.mask))
+    = [(9,0,8), (11,1,8), (12,1,8), (20,1,8), (2,2,8), (3,3,8), (9,4,8), (1,5,8), (2,6,8), (4,7,8)] := by decide
+/-- … and the specification's resume index after the grown match is 5 = the interpreter's new `out_len` -/
+example : (applySubtableAt exCtxFont 0 0 8 (.chain3 [[9]] [[1], [2]] [[3]] [(0, 1), (2, 2)]) (exCtxInfo.map toG) 1).map (·.2)
+    = some 5 := by decide
+/-- the matchers on the state "9 out, 1 2 3 … to come": input [2] matches, lookahead [3] matches, backtrack [9] matches;
+    lookahead [4] fails on both sides -/
+def exCtxStepBuf : Buf :=
+  { info := exCtxInfo, out := [⟨9,8,0,0,0⟩, {}, {}, {}, {}, {}, {}, {}], idx := 1, len := 8, outLen := 1,
+    haveOutput := true, sepOut := true }
+def exCtxStepCtx : Ctx := { font := exCtxFont, lookupMask := 8, buf := exCtxStepBuf }
+example : Inv exCtxStepBuf := ⟨by decide, by decide, by decide, by decide, by decide, by decide⟩
+example : (match matchInput exCtxStepCtx 1 (fun g i => nthCov [[2]] i g) [0, 0, 0, 0] with
+    | .ok r => (r.ok, r.endPos, r.positions.take 2) == (true, 3, [1, 2]) | .error _ => false) = true := by decide
+example : matchSeq ((outP exCtxStepBuf ++ inP exCtxStepBuf).map toG)
+    (visibleFrom exCtxFont 0 ((outP exCtxStepBuf ++ inP exCtxStepBuf).map toG) 2) (fnPreds (fun g i => nthCov [[2]] i g) 0 1) (some 8)
+    = some [2] := by decide
+example : (match matchLookahead exCtxStepCtx 1 (fun g i => nthCov [[4]] i g) 3 with
+    | .ok r => r.1 == false | .error _ => false) = true := by decide
+example : (matchSeq ((outP exCtxStepBuf ++ inP exCtxStepBuf).map toG)
+    (visibleFrom exCtxFont 0 ((outP exCtxStepBuf ++ inP exCtxStepBuf).map toG) 3) (fnPreds (fun g i => nthCov [[4]] i g) 0 1)).isSome
+    = false := by decide
+example : (match matchBacktrack exCtxStepCtx 1 (fun g i => nthCov [[9]] i g) with
+    | .ok r => r == (true, 0) | .error _ => false) = true := by decide
+/-- `apply_lookup` on that match: records (0 → lookup 1), (2 → lookup 2) -/
+example : (match applyLookup (recurseAt 64) exCtxStepCtx 1 [1, 2, 0, 0] 3 [(0, 1), (2, 2)] with
+    | .ok c' => ((outP c'.buf ++ inP c'.buf).map (·.gid), c'.buf.outLen) == ([9, 11, 12, 20, 2, 3, 9, 1, 2, 4], 5)
+    | .error _ => false) = true := by decide
+example : (applyRecords exCtxFont 8 [(0, 1), (2, 2)] ((outP exCtxStepBuf ++ inP exCtxStepBuf).map toG) [1, 2]).1.map (·.gid)
+    = [9, 11, 12, 20, 2, 3, 9, 1, 2, 4] ∧
+    (applyRecords exCtxFont 8 [(0, 1), (2, 2)] ((outP exCtxStepBuf ++ inP exCtxStepBuf).map toG) [1, 2]).2 = [1, 2, 3, 4] := by decide
+
+/-! two rules where the ORDER matters (Context format 1, lookup 5): "1 2" (→ 31) is listed before "1 2 3" (→ 41) and shadows it -/
+def exCtxLookup5 : Lookup := { props := 0, subtables := [.context1 [1] [[⟨[2], [(0, 3)]⟩, ⟨[2, 3], [(0, 4)]⟩]]] }
+example : (match applyString exCtxCtx exCtxLookup5 8 with
+    | .ok c' => (c'.buf.info.take c'.buf.len).map (·.gid) == [9, 31, 2, 3, 9, 31, 2, 4] | .error _ => false) = true := by decide
+example : (applyLookupFwd exCtxFont 0 exCtxLookup5 8 8 (exCtxInfo.map toG) 0).map (·.gid) = [9, 31, 2, 3, 9, 31, 2, 4] := by decide
+
+/-! the mask hypothesis of `CtxG` is not idle (`exCtxMask0`): a BACKTRACK glyph whose mask is 0 — `match_backtrack`'s iterator
+    (mask 0xFFFFFFFF) does not match it, the rule does not fire; the specification asks nothing of context glyphs and fires.
+    (No glyph of a shaping run has mask 0: `hb_ot_map_t` gives every glyph the global bit.) -/
+def exCtxMask0 : Ctx :=
+  { font := exCtxFont, lookupMask := 8,
+    buf := { info := [⟨9,0,0,0,0⟩, ⟨1,8,1,0,0⟩, ⟨2,8,2,0,0⟩, ⟨3,8,3,0,0⟩], out := List.replicate 4 {}, len := 4 } }
+example : (match applyString exCtxMask0 exCtxLookup 4 with
+    | .ok c' => (c'.buf.info.take c'.buf.len).map (·.gid) == [9, 1, 2, 3] | .error _ => false) = true := by decide
+example : (applyLookupFwd exCtxFont 0 exCtxLookup 8 4 ((exCtxMask0.buf.info.take 4).map toG) 0).map (·.gid)
+    = [9, 11, 12, 20, 2, 3] := by decide
+
+end RbModel.Gsub
+
